@@ -387,6 +387,8 @@ func (s *State) heapStore(root types.Type, path []int, ref *Term, v Value) strin
 	return ""
 }
 
+var funcIDs = map[string]int{}
+
 // adaptTo lets nil literals take the static shape of the destination.
 func adaptTo(tmpl, v Value) Value {
 	switch t := tmpl.(type) {
@@ -403,8 +405,12 @@ func adaptTo(tmpl, v Value) Value {
 	case FuncV:
 		if f, ok := v.(FuncV); ok && f.Fn != nil {
 			// a known closure stored in the heap becomes opaque but non-nil
-			id := Fresh("fn."+f.Fn.Name(), SRef)
-			return FuncV{ID: id}
+			k, ok := funcIDs[f.Fn.String()]
+			if !ok {
+				k = len(funcIDs) + 1
+				funcIDs[f.Fn.String()] = k
+			}
+			return FuncV{ID: BV(uint64(0x7f000000+k), 32)}
 		}
 	}
 	return v
